@@ -14,6 +14,15 @@ use serde_json::json;
 
 pub struct C04;
 
+/// fixed programs: a variable updated by a call between two reads in one statement; scopes after
+/// a loop left by break / continue
+const SCOPE_PROGRAMS: &[&str] = &[
+    "n := 0\nfn next() {\nn += 1\nreturn $\"${\"abcdef\"[n]}\"\n}\nprint($\"${next()}-${next()}\")\nprint(next() + next())\nprint([next(), next()])\n",
+    "x := \"p\"\nfn setx() {\nx = \"q\"\nreturn \"\"\n}\nprint($\"${x}${setx()}${x}\")\nx = \"p\"\nprint(x + setx() + x)\n",
+    "x := 0\nfor e in [1, 2] {\nx := 10\nbreak\n}\nprint(x)\nfor e in [1, 2] {\nx := 20\ncontinue\n}\nprint(x)\ni := 0\nwhile i < 2 {\ni += 1\nx := 30\nif i == 1 {\ncontinue\n}\nbreak\n}\nprint(x)\nx := 5\n",
+    "x := 0\nfn f() {\nfor e in [1, 2] {\nx := 10\nif e[1] == 1 {\ncontinue\n}\nbreak\n}\nx = 7\nreturn fn () {\nreturn x\n}\n}\nprint(f()())\nprint(x)\n",
+];
+
 const DECL: u16 = 0;
 const ASSIGN: u16 = 1;
 const PRINT: u16 = 2;
@@ -275,23 +284,25 @@ pub struct RSt {
     ops: Vec<u16>,
     text: String,
     open: Vec<usize>, // operations inside each open construct so far
+    loops: Vec<bool>, // is the construct a loop
     next_k: u32,
     r_def: bool,
 }
 
-const R_NAMES: [&str; 10] = ["print(x)", "x := k", "x = k", "fn r() { print(x); x = k }", "r()", "{", "}", "for(2) {", "[x] = [k]", "{..x} = {\"a\": k}"];
+const R_NAMES: [&str; 12] = ["print(x)", "x := k", "x = k", "fn r() { print(x); x = k }", "r()", "{", "}", "for(2) {", "[x] = [k]", "{..x} = {\"a\": k}", "break", "if e[1] == 0 { continue }"];
 
 struct Res;
 
 impl Alphabet for Res {
     type St = RSt;
     fn init(&self) -> RSt {
-        RSt { ops: vec![], text: String::from("x := 0\n"), open: vec![], next_k: 1, r_def: false }
+        RSt { ops: vec![], text: String::from("x := 0\n"), open: vec![], loops: vec![], next_k: 1, r_def: false }
     }
     fn enabled(&self, st: &RSt) -> Vec<u16> {
         let last = st.ops.last().copied();
-        (0..10u16)
+        (0..12u16)
             .filter(|op| match *op {
+                10 | 11 => st.loops.last() == Some(&true) && last != Some(10) && last != Some(*op),
                 0 => last != Some(0),
                 3 => !st.r_def,
                 4 => st.r_def,
@@ -327,15 +338,20 @@ impl Alphabet for Res {
             5 => {
                 s.text.push_str("{\n");
                 s.open.push(0);
+                s.loops.push(false);
             }
             6 => {
                 s.open.pop();
+                s.loops.pop();
                 s.text.push_str("}\n");
             }
             7 => {
                 s.text.push_str("for e in [0, 1] {\n");
                 s.open.push(0);
+                s.loops.push(true);
             }
+            10 => s.text.push_str("break\n"),
+            11 => s.text.push_str("if e[1] == 0 {\ncontinue\n}\n"),
             8 => {
                 s.text.push_str(&format!("[x] = [{}]\n", k));
                 s.next_k += 1;
@@ -359,6 +375,93 @@ impl Alphabet for Res {
     fn describe(&self, st: &RSt) -> String {
         st.ops.iter().map(|o| R_NAMES[*o as usize]).collect::<Vec<_>>().join(" ; ")
     }
+}
+
+// ----- consistent renaming of a declared variable never changes what a program prints -----
+
+/// (variant, old name, new name) for every simply declared name of `src` and three fresh spellings
+fn rename_variants(src: &str) -> Vec<(String, String, String)> {
+    use crate::refm::lex::{lex_raw, Tok};
+    let (toks, err) = lex_raw(src);
+    if err.is_some() {
+        return vec![];
+    }
+    let is_sym = |t: Option<&crate::refm::lex::Token>, x: &str| matches!(t, Some(tt) if matches!(&tt.tok, Tok::Sym(s) if *s == x));
+    let mut cands: Vec<String> = vec![];
+    for (i, t) in toks.iter().enumerate() {
+        if let Tok::Ident(name) = &t.tok {
+            let prev = if i > 0 { toks.get(i - 1) } else { None };
+            let next = toks.get(i + 1);
+            let declared = is_sym(next, ":=") && (prev.is_none() || matches!(prev, Some(p) if p.tok == Tok::End) || is_sym(prev, "{"));
+            let fn_name = matches!(prev, Some(p) if p.tok == Tok::Kw("fn"));
+            if (declared || fn_name) && name != "this" && name != "_" && !cands.contains(name) {
+                cands.push(name.clone());
+            }
+        }
+    }
+    let mut out = vec![];
+    'cand: for name in cands {
+        // the name must not be tied to a property name (shorthand) or occur inside a slot
+        for (i, t) in toks.iter().enumerate() {
+            match &t.tok {
+                Tok::Ident(n) if *n == name => {
+                    let prev = if i > 0 { toks.get(i - 1) } else { None };
+                    let next = toks.get(i + 1);
+                    let p_sh = is_sym(prev, "{") || is_sym(prev, ",");
+                    let n_sh = is_sym(next, "}") || is_sym(next, ",");
+                    if p_sh && n_sh {
+                        continue 'cand;
+                    }
+                }
+                Tok::Interp(_) => {
+                    if src[t.start..t.end].contains(name.as_str()) {
+                        continue 'cand;
+                    }
+                }
+                _ => {}
+            }
+        }
+        for new in [format!("_{}", name), format!("{}_r", name), format!("{}Z9", name), "_".repeat(2) + &name] {
+            if toks.iter().any(|t| matches!(&t.tok, Tok::Ident(n) if *n == new)) {
+                continue;
+            }
+            let mut v = String::new();
+            let mut last = 0usize;
+            for (i, t) in toks.iter().enumerate() {
+                if let Tok::Ident(n) = &t.tok {
+                    let prev = if i > 0 { toks.get(i - 1) } else { None };
+                    if *n == name && !is_sym(prev, ".") && !is_sym(prev, "->") {
+                        v.push_str(&src[last..t.start]);
+                        v.push_str(&new);
+                        last = t.end;
+                    }
+                }
+            }
+            v.push_str(&src[last..]);
+            out.push((v, name.clone(), new));
+        }
+    }
+    out
+}
+
+/// message text with positions erased and the new name written back as the old one
+fn msg_shape(msg: &str, new: &str, old: &str) -> String {
+    let m = msg.replace(new, old);
+    let mut out = String::new();
+    let b: Vec<char> = m.chars().collect();
+    let mut i = 0;
+    while i < b.len() {
+        if b[i].is_ascii_digit() {
+            while i < b.len() && (b[i].is_ascii_digit() || b[i] == ':') {
+                i += 1;
+            }
+            out.push('#');
+        } else {
+            out.push(b[i]);
+            i += 1;
+        }
+    }
+    out
 }
 
 fn has_subseq(ops: &[u16], pat: &[u16]) -> bool {
@@ -421,6 +524,44 @@ impl Check for C04 {
             "resolution_bounds".into(),
             json!({"max_operations": rdepth, "completed_depth": rstats.completed_depth, "operations": R_NAMES.len(), "levels(depth,generated,kept)": rstats.levels, "dead_states": rstats.dead}),
         );
+        // renaming: every simply declared name of every corpus program under four fresh spellings
+        {
+            let corp = crate::layout::corpus();
+            let mut cases = vec![];
+            let mut pairs: Vec<(String, String, String, String)> = vec![];
+            for (_name, src) in &corp {
+                let vs = rename_variants(src);
+                if vs.is_empty() {
+                    continue;
+                }
+                let mut c = Case::new(src.clone(), 31, "original".to_string());
+                c.no_ref = true;
+                cases.push(c);
+                for (v, old, new) in vs {
+                    let mut c = Case::new(v.clone(), 31, format!("{} renamed to {}", old, new));
+                    c.no_ref = true;
+                    cases.push(c);
+                    pairs.push((src.clone(), v, old, new));
+                }
+            }
+            let n_ren = pairs.len();
+            let judged = ctx.judge(cases, |_c, _r, _o| Verdict::Pass)?;
+            let by_src: std::collections::HashMap<&str, &Judged> = judged.iter().map(|j| (j.case.src.as_str(), j)).collect();
+            for (b, v, old, new) in &pairs {
+                let (jb, jv) = match (by_src.get(b.as_str()), by_src.get(v.as_str())) {
+                    (Some(x), Some(y)) => (*x, *y),
+                    _ => continue,
+                };
+                if jb.o.class != jv.o.class || jb.o.stdout != jv.o.stdout || msg_shape(&jb.o.msg, "\u{0}", "\u{0}") != msg_shape(&jv.o.msg, new, old) {
+                    let mut c = jv.case.clone();
+                    c.companion = Some(b.clone());
+                    ctx.report(&c, None, &jv.o, "renaming", format!("renaming {} to {} changed the behaviour: {:?} printing {:?} ({}); the original gives {:?} printing {:?} ({})", old, new, jv.o.class, jv.o.out_str(), jv.o.msg.lines().next().unwrap_or(""), jb.o.class, jb.o.out_str(), jb.o.msg.lines().next().unwrap_or("")));
+                }
+            }
+            ctx.extra.insert("renamed_programs".into(), json!(n_ren));
+        }
+        let sp: Vec<Case> = SCOPE_PROGRAMS.iter().enumerate().map(|(i, p)| Case::new(p.to_string(), 30, format!("scope program {}", i))).collect();
+        ctx.judge(sp, |c, r, o| self.oracle(c, r, o))?;
         let tp: Vec<Case> = super::evalorder::THIS_PROGRAMS.iter().enumerate().map(|(i, p)| Case::new(p.to_string(), 30, format!("`this` is resolved where the function was created, program {}", i))).collect();
         ctx.judge(tp, |c, r, o| self.oracle(c, r, o))?;
         ctx.guard("a closure was called after its defining scope ended", g_closure_outlives);
